@@ -187,7 +187,7 @@ func TestC21(t *testing.T) {
 	const chunk = 2000
 	nPairs := r.N(4000000, 50000000)
 	chunks := nPairs / chunk
-	dims := []int{1, 2, 3, 8, 8, 8, 16}
+	dims := []int{1, 2, 3, 8, 8, 8, 16, 4, 5, 6, 7, 9, 10, 11, 13, 31}
 
 	r.Cases("pairs", chunks, 0, func(ci int, rng *rand.Rand) {
 		cnt := map[string]int{}
